@@ -7,8 +7,11 @@ data source ("resolver data"): callable resolve(parent_type, field_name, parent_
 """
 
 class FieldError(Exception):
-    def __init__(self, path):
+    """carries every failure that propagates together (the spec allows siblings to be cancelled or not;
+    the reference runs them all = maximal error set; `required` = one cause per nulled position)"""
+    def __init__(self, path, more=()):
         self.path = path
+        self.paths = [path] + list(more)
 
 MISSING = object()
 
@@ -46,7 +49,8 @@ class Ref:
     def __init__(self, schema, doc, variables, resolve, typeof):
         self.s = schema; self.doc = doc; self.vars = variables; self.resolve = resolve; self.typeof = typeof
         self.frags = {d["name"]["value"]: d for d in doc["definitions"] if d["kind"] == "FragmentDefinition"}
-        self.errors = []   # list of path tuples
+        self.errors = []   # maximal list of error paths
+        self.nulled = []   # (nulled position, candidate cause paths)
         self.calls = []
 
     def arg_value(self, v):
@@ -113,6 +117,7 @@ class Ref:
         for ss in fieldsets:
             self.collect(objtype, ss, grouped, visited)
         out = []
+        failed = []
         for key, nodes in grouped.items():
             fname = nodes[0]["name"]["value"]
             if fname == "__typename":
@@ -120,7 +125,12 @@ class Ref:
             ftype = self.s[objtype]["fields"].get(fname)
             if ftype is None:
                 continue
-            out.append((key, self.exec_field(objtype, value, fname, ftype, nodes, path + (key,))))
+            try:
+                out.append((key, self.exec_field(objtype, value, fname, ftype, nodes, path + (key,))))
+            except FieldError as e:
+                failed.extend(e.paths)
+        if failed:
+            raise FieldError(failed[0], failed[1:])
         return out
 
     def exec_field(self, objtype, parent, fname, ftype, nodes, path):
@@ -141,7 +151,8 @@ class Ref:
         except FieldError as e:
             if isinstance(ftype, tuple) and ftype[0] == "NN":
                 raise
-            self.errors.append(e.path)
+            self.errors.extend(e.paths)
+            self.nulled.append((path, e.paths))
             return None
 
     def complete(self, t, nodes, res, path, ptype, fname):
@@ -158,15 +169,14 @@ class Ref:
             if not isinstance(res, list):
                 raise FieldError(path)
             out = []
-            failed = None
+            failed = []
             for i, item in enumerate(res):
                 try:
                     out.append(self.complete_item(t[1], nodes, item, path + (i,), ptype, fname))
                 except FieldError as e:
-                    if failed is None:
-                        failed = e
-            if failed is not None:
-                raise failed
+                    failed.extend(e.paths)
+            if failed:
+                raise FieldError(failed[0], failed[1:])
             return out
         td = self.s[t]
         if td["kind"] in ("SCALAR",):
@@ -193,14 +203,16 @@ class Ref:
         except FieldError as e:
             if isinstance(t, tuple) and t[0] == "NN":
                 raise
-            self.errors.append(e.path)
+            self.errors.extend(e.paths)
+            self.nulled.append((path, e.paths))
             return None
 
     def run(self, op, root_type, root_value):
         try:
             return self.exec_selset(root_type, root_value, [op["selectionSet"]], ())
         except FieldError as e:
-            self.errors.append(e.path)
+            self.errors.extend(e.paths)
+            self.nulled.append(((), e.paths))
             return None
 
 def to_pairs(d):
